@@ -12,7 +12,7 @@ from fractions import Fraction
 from . import nf
 from .nf import Poly, Const
 
-MAX_CONSTRAINTS = 400
+MAX_CONSTRAINTS = 2000
 
 
 class NotLinear(Exception):
@@ -45,7 +45,7 @@ class Lin:
         return ' + '.join(parts + [str(self.const)])
 
 
-def linearise(p):
+def linearise(p, opaque_products=True):
     """Poly of degree <= 1 in its atoms -> Lin"""
     if isinstance(p, Const) and isinstance(p.value, (int, bool)):
         return Lin({}, int(p.value))
@@ -57,6 +57,10 @@ def linearise(p):
             const += Fraction(k)
         elif len(m) == 1 and m[0][1] == 1:
             coefs[m[0][0]] = coefs.get(m[0][0], 0) + Fraction(k)
+        elif opaque_products:
+            # a product of unknowns (shape[0]*oversample) is one unknown of its own: sound for entailment, which then
+            # simply does not use what the factors say about the product
+            coefs[('mono', m)] = coefs.get(('mono', m), 0) + Fraction(k)
         else:
             raise NotLinear('product of unknowns')
     return Lin(coefs, const)
@@ -120,6 +124,23 @@ def literal_constraints(c, pol):
     return alts[0]
 
 
+def _normalise(cons):
+    """one constraint per direction (the tightest), coefficients scaled so that the first one is +-1"""
+    best = {}
+    for l in cons:
+        if not l.coefs:
+            if l.const > 0:
+                return None         # 0 <= -const < 0: infeasible outright
+            continue
+        vs = sorted(l.coefs, key=repr)
+        k = abs(l.coefs[vs[0]])
+        key = tuple((repr(v), l.coefs[v] / k) for v in vs)
+        c = l.const / k
+        if key not in best or c > best[key][1]:
+            best[key] = (Lin({v: l.coefs[v] / k for v in vs}, c), c)
+    return [x for x, _ in best.values()]
+
+
 def _eliminate(cons, v):
     pos, neg, rest = [], [], []
     for l in cons:
@@ -130,24 +151,29 @@ def _eliminate(cons, v):
         for n in neg:
             cp, cn = p.coefs[v], -n.coefs[v]
             out.append(p.scale(cn) + n.scale(cp))
-            if len(out) > MAX_CONSTRAINTS:
-                raise NotLinear('too many constraints')
-    # drop duplicates
-    seen, uniq = set(), []
-    for l in out:
-        k = (tuple(sorted((repr(a), c) for a, c in l.coefs.items())), l.const)
-        if k not in seen:
-            seen.add(k)
-            uniq.append(l)
-    return uniq
+    out = _normalise(out)
+    if out is not None and len(out) > MAX_CONSTRAINTS:
+        raise NotLinear('too many constraints')
+    return out
 
 
 def feasible(cons):
-    """is there a rational point with every lin <= 0 ?"""
-    cons = list(cons)
-    variables = sorted({v for l in cons for v in l.coefs}, key=repr)
-    for v in variables:
+    """is there a rational point with every lin <= 0 ?  (Fourier-Motzkin, cheapest variable first)"""
+    cons = _normalise(list(cons))
+    if cons is None:
+        return False
+    while True:
+        variables = {v for l in cons for v in l.coefs}
+        if not variables:
+            break
+        def cost(v):
+            p = sum(1 for l in cons if l.coefs.get(v, 0) > 0)
+            n = sum(1 for l in cons if l.coefs.get(v, 0) < 0)
+            return p * n - p - n
+        v = min(sorted(variables, key=repr), key=cost)
         cons = _eliminate(cons, v)
+        if cons is None:
+            return False
     return all(l.const <= 0 for l in cons)
 
 
